@@ -87,8 +87,10 @@ def opRfaWin : List String → String
       let Y := Rfa.Yk (arrFn y.toArray) m n
       let w := Rfa.windowsAdaptive gpow a m Y (fun v => v)
       let ks := List.range (m + 1)
-      let flags := ks.map (fun k => if k = 0 ∨ m ≤ k then 0 else if Rfa.adaptiveExactInt gpow a Y k then 1 else 0)
-      s!"ok {fmtNats (ks.map w.aL)} {fmtNats (ks.map w.aR)} {fmtNats flags}"
+      let sh := ks.map (fun k => if k = 0 ∨ m ≤ k then none else Rfa.adaptiveShares gpow a Y k)
+      let shL := sh.map (fun o => match o with | some p => p.1 | none => 0)
+      let shR := sh.map (fun o => match o with | some p => p.2 | none => 0)
+      s!"ok {fmtNats (ks.map w.aL)} {fmtNats (ks.map w.aR)} {fmtRats shL} {fmtRats shR}"
     | _, _, _, _ => bad
   | _ => bad
 
